@@ -74,6 +74,8 @@ pub enum Op {
     Cons(bool),
     NewDocWith(Handle),
     RemoveWs(Handle),
+    Cmp(Handle),
+    Dedup(Handle),
 }
 
 pub fn op_str(o: &Op) -> String {
@@ -122,6 +124,8 @@ pub fn op_str(o: &Op) -> String {
         Cons(b) => format!("cons {}", if *b { 1 } else { 0 }),
         NewDocWith(a) => format!("new_doc_with {}", hs(*a)),
         RemoveWs(a) => format!("rmws {}", hs(*a)),
+        Cmp(a) => format!("cmp {}", hs(*a)),
+        Dedup(a) => format!("dedup {}", hs(*a)),
     }
 }
 
@@ -181,6 +185,8 @@ pub fn parse_op(s: &str) -> Op {
         "cons" => Cons(f[1] == "1"),
         "new_doc_with" => NewDocWith(ph(f[1])),
         "rmws" => RemoveWs(ph(f[1])),
+        "cmp" => Cmp(ph(f[1])),
+        "dedup" => Dedup(ph(f[1])),
         x => panic!("unknown op {}", x),
     }
 }
@@ -195,7 +201,7 @@ pub fn op_nodes(o: &Op) -> Vec<Handle> {
         | RmAttr(a, _) | SetNs(a, _, _) | RmNs(a, _) | AttrsClear(a) | NsClear(a) | AttrsGetMutSet(a, _, _)
         | AttrsEntryOrInsert(a, _, _) | AttrsEntryModify(a, _, _) | AttrsEntryRemove(a, _) | NsGetMutSet(a, _, _)
         | NsEntryOrInsert(a, _, _) | SetText(a, _) | SetComment(a, _) | SetPiData(a, _) | SetAttrValue(a, _)
-        | SetNsValue(a, _) | TextContentMut(a, _) | NewDocWith(a) | RemoveWs(a) => vec![*a],
+        | SetNsValue(a, _) | TextContentMut(a, _) | NewDocWith(a) | RemoveWs(a) | Cmp(a) | Dedup(a) => vec![*a],
         _ => vec![],
     }
 }
@@ -399,6 +405,8 @@ pub fn exec(st: &mut Store, op: &Op) -> Outcome {
             TextContentMut(_, s) => { if let Some(t) = xot.text_content_mut(a.unwrap()) { t.set(s); } None }
             NewDocWith(_) => Some(xot.new_document_with_element(a.unwrap())?),
             RemoveWs(_) => { xot.remove_insignificant_whitespace(a.unwrap()); None }
+            Cmp(_) => { xot.create_missing_prefixes(a.unwrap())?; None }
+            Dedup(_) => { xot.deduplicate_namespaces(a.unwrap()); None }
             Cons(_) => unreachable!(),
         })
     });
